@@ -21,6 +21,7 @@ EXPLANATION = (
     'substituted; by the set of conditions on the path, not their nesting): groups bitmap when present, else all zones when there is one AC, else '
     'range(start, start+count); AT5 range(start, start+count). R6 the ability records the model is built from are decoded as the vendor table says (C05.R1 '
     'ability-decoder instances re-evaluated).'
+    ' Rounds 9-10: R2 also: a frame that neither advances the handshake nor sends anything is processed in state CONNECTED only; R4 also: init() waits once (no loop around the 5 s wait); R11 (C03.R15 re-used); R12 (C15.R5 re-used): init() subscribes before it opens the socket.'
 )
 ASSUMPTIONS = ["the socket delivers frames to _message_received one at a time (C07/C13)", "match statement first-match semantics"]
 FLOORS = {"C09.R1": 30, "C09.R2": 20, "C09.R3": 6, "C09.R4": 8, "C09.R5": 10, "C09.R6": 1, "C09.R7": 1, "C09.R8": 1, "C09.R9": 1, "C09.R11": 1, "C09.R12": 1}
